@@ -212,6 +212,119 @@ pub fn weight_events(rec: &mut Rec, r: &mut StdRng, run: u64, n: usize) {
     }
 }
 
+fn pow10(k: u8) -> u128 { 10u128.pow(k as u32) }
+
+/// two-asset stableswap (pair): compute_swap (StableSwap arm) twice from the same reserves (offer, offer2 >= offer)
+pub fn st2_swap_events(rec: &mut Rec, r: &mut StdRng, run: u64, n: usize) {
+    const DECS: [[u8; 2]; 6] = [[6, 6], [6, 8], [8, 6], [6, 18], [18, 6], [4, 5]];
+    for step in 0..n {
+        let d = *gen::pick(r, &DECS);
+        let amp: u64 = match r.gen_range(0..6) { 0 => 1, 1 => 1_000_000, 2 => 100, 3 => 50, _ => gen::log_uniform(r, 1, 1_000_000) as u64 };
+        // reserves in whole tokens (>= 1 token each), up to 2^100 base units
+        let cap = |dec: u8| -> u128 { ((1u128 << 100) / pow10(dec)).max(2) };
+        let tok_o = gen::log_uniform(r, 1, cap(d[0]).min(1u128 << 60));
+        let ratio_cls = r.gen_range(0..6);
+        let tok_a = match ratio_cls { 0 => tok_o, 1 => (tok_o / 2).max(1), 2 => tok_o.saturating_mul(3).min(cap(d[1])), 3 => (tok_o / 1000).max(1), _ => gen::log_uniform(r, 1, cap(d[1]).min(1u128 << 60)) };
+        let frac = |r: &mut StdRng, dec: u8| -> u128 { if r.gen_bool(0.5) { 0 } else { r.gen_range(0..pow10(dec)) } };
+        let op = tok_o * pow10(d[0]) + frac(r, d[0]);
+        let ak = tok_a.min(cap(d[1])) * pow10(d[1]) + frac(r, d[1]);
+        let off = match r.gen_range(0..6) { 0 => 1, 1 => op, 2 => op / 100 + 1, 3 => pow10(d[0]), _ => gen::log_uniform(r, 1, op.saturating_mul(2).min(1u128 << 100)) };
+        let off2 = match r.gen_range(0..3) { 0 => off + 1, 1 => off.saturating_mul(2), _ => off + gen::log_uniform(r, 1, off.max(1)) };
+        let f = fees(r);
+        let call = |o: u128| -> (String, Value) {
+            let rr = catch_unwind(AssertUnwindSafe(|| pairh::compute_swap(Uint128::new(op), Uint128::new(ak), Uint128::new(o),
+                pool_fee(dec_atomics(f[0]), dec_atomics(f[1]), dec_atomics(f[2])), &PairType::StableSwap { amp }, d[0], d[1])));
+            match rr {
+                Ok(Ok(c)) => ("ok".into(), json!({"ret": s(c.return_amount.u128()), "spread": s(c.spread_amount.u128()), "sf": s(c.swap_fee_amount.u128()),
+                    "pf": s(c.protocol_fee_amount.u128()), "bf": s(c.burn_fee_amount.u128())})),
+                Ok(Err(_)) => ("rejected".into(), json!({"ret": "0", "spread": "0", "sf": "0", "pf": "0", "bf": "0"})),
+                Err(_) => ("aborted".into(), json!({"ret": "0", "spread": "0", "sf": "0", "pf": "0", "bf": "0"})),
+            }
+        };
+        let (r1, o1) = call(off);
+        let (r2, o2) = call(off2);
+        rec.emit(json!({"ev": "st2swap", "run": run, "step": step,
+            "args": {"op": s(op), "ak": s(ak), "off": s(off), "off2": s(off2), "amp": amp.to_string(), "do": d[0], "da": d[1],
+                     "fees": {"p": s(f[0]), "s": s(f[1]), "b": s(f[2])}},
+            "res": r1, "out": o1, "res2": r2, "out2": o2}));
+    }
+}
+
+/// LP mint of the two-asset stableswap for a later deposit (compute_lp_mint_amount_for_stableswap_deposit)
+pub fn st2_deposit_events(rec: &mut Rec, r: &mut StdRng, run: u64, n: usize) {
+    const DECS: [[u8; 2]; 6] = [[6, 6], [6, 8], [8, 6], [6, 18], [18, 6], [4, 5]];
+    for step in 0..n {
+        let d = *gen::pick(r, &DECS);
+        let amp: u64 = match r.gen_range(0..5) { 0 => 1, 1 => 1_000_000, 2 => 100, _ => gen::log_uniform(r, 1, 1_000_000) as u64 };
+        let tok = gen::log_uniform(r, 1, 1u128 << 40);
+        let pa = tok * pow10(d[0]);
+        let pb = match r.gen_range(0..4) { 0 => tok, 1 => (tok / 3).max(1), _ => gen::log_uniform(r, 1, 1u128 << 40) } * pow10(d[1]);
+        let (xa, xb) = match r.gen_range(0..5) {
+            0 => (gen::log_uniform(r, 1, pa), 0),
+            1 => (0, gen::log_uniform(r, 1, pb)),
+            2 => (pa / 10 + 1, pb / 10 + 1),
+            _ => (gen::log_uniform(r, 1, pa), gen::log_uniform(r, 1, pb)),
+        };
+        let supply = gen::log_uniform(r, 2000, 1u128 << 90);
+        let rr = catch_unwind(AssertUnwindSafe(|| pairh::compute_lp_mint_amount_for_stableswap_deposit(&amp, Uint128::new(xa), Uint128::new(xb), Uint128::new(pa), Uint128::new(pb), Uint128::new(supply))));
+        let (res, minted) = match rr { Ok(Some(m)) => ("ok", m.u128()), Ok(None) => ("rejected", 0), Err(_) => ("aborted", 0) };
+        rec.emit(json!({"ev": "st2dep", "run": run, "step": step,
+            "args": {"pa": s(pa), "pb": s(pb), "xa": s(xa), "xb": s(xb), "S": s(supply), "amp": amp.to_string(), "da": d[0], "db": d[1]},
+            "res": res, "out": {"minted": s(minted)}}));
+    }
+}
+
+/// three-asset curve (hook: StableSwap): swap there and back, deposit mint, amplification ramp
+pub fn st3_events(rec: &mut Rec, r: &mut StdRng, run: u64, n: usize) {
+    use stableswap_3pool::verif_hooks::StableSwap;
+    for step in 0..n {
+        let amp: u64 = match r.gen_range(0..6) { 0 => 1, 1 => 1_000_000, 2 => 100, 3 => 2000, _ => gen::log_uniform(r, 1, 1_000_000) as u64 };
+        let curve = StableSwap::new(amp, amp, 100, 0, 0);
+        let top = 1u128 << 110;
+        let base = gen::log_uniform(r, 1000, top);
+        let rel = |r: &mut StdRng, b: u128| -> u128 { match r.gen_range(0..5) { 0 => b, 1 => (b / 2).max(1), 2 => (b / 1000).max(1), 3 => b.saturating_mul(3).min(top), _ => gen::log_uniform(r, 1, top) } };
+        let (src, dst, uns) = (base, rel(r, base), rel(r, base));
+        match r.gen_range(0..10) {
+            0..=5 => {
+                let amt = match r.gen_range(0..5) { 0 => 1, 1 => src, 2 => src / 100 + 1, _ => gen::log_uniform(r, 1, src.saturating_mul(2).min(top)) };
+                let rr = catch_unwind(AssertUnwindSafe(|| curve.swap_to(Uint128::new(amt), Uint128::new(src), Uint128::new(dst), Uint128::new(uns))));
+                let (res, dy) = match rr { Ok(Some(x)) => ("ok", x.amount_swapped.u128()), Ok(None) => ("rejected", 0), Err(_) => ("aborted", 0) };
+                // straight back from the state after the first swap
+                let (res2, dx) = if res == "ok" && dy > 0 && dy < dst {
+                    let rr = catch_unwind(AssertUnwindSafe(|| curve.swap_to(Uint128::new(dy), Uint128::new(dst - dy), Uint128::new(src + amt), Uint128::new(uns))));
+                    match rr { Ok(Some(x)) => ("ok", x.amount_swapped.u128()), Ok(None) => ("rejected", 0), Err(_) => ("aborted", 0) }
+                } else { ("skipped", 0) };
+                rec.emit(json!({"ev": "st3swap", "run": run, "step": step,
+                    "args": {"src": s(src), "dst": s(dst), "uns": s(uns), "amt": s(amt), "amp": amp.to_string()},
+                    "res": res, "out": {"dy": s(dy)}, "res2": res2, "out2": {"dx": s(dx)}}));
+            }
+            6..=8 => {
+                let dep = |r: &mut StdRng, p: u128| -> u128 { match r.gen_range(0..4) { 0 => 0, 1 => p / 10 + 1, _ => gen::log_uniform(r, 1, p) } };
+                let (xa, xb, xc) = (dep(r, src), dep(r, dst), dep(r, uns));
+                let supply = gen::log_uniform(r, 3000, 1u128 << 100);
+                let rr = catch_unwind(AssertUnwindSafe(|| curve.compute_mint_amount_for_deposit(Uint128::new(xa), Uint128::new(xb), Uint128::new(xc), Uint128::new(src), Uint128::new(dst), Uint128::new(uns), Uint128::new(supply))));
+                let (res, minted) = match rr { Ok(Some(m)) => ("ok", m.u128()), Ok(None) => ("rejected", 0), Err(_) => ("aborted", 0) };
+                rec.emit(json!({"ev": "st3dep", "run": run, "step": step,
+                    "args": {"pa": s(src), "pb": s(dst), "pc": s(uns), "xa": s(xa), "xb": s(xb), "xc": s(xc), "S": s(supply), "amp": amp.to_string()},
+                    "res": res, "out": {"minted": s(minted)}}));
+            }
+            _ => {
+                let init: u64 = gen::log_uniform(r, 1, 1_000_000) as u64;
+                let target: u64 = match r.gen_range(0..4) { 0 => init, 1 => (init * 10).min(1_000_000), 2 => (init / 10).max(1), _ => gen::log_uniform(r, 1, 1_000_000) as u64 };
+                let start: u64 = r.gen_range(0..1_000_000);
+                let stop: u64 = start + r.gen_range(1..200_000u64);
+                let now: u64 = match r.gen_range(0..7) { 0 => start, 1 => start + 1, 2 => (start + stop) / 2, 3 => stop - 1, 4 => stop, 5 => stop + 1, _ => r.gen_range(start..=stop + 10) };
+                let c2 = StableSwap::new(init, target, now, start, stop);
+                let rr = catch_unwind(AssertUnwindSafe(|| c2.compute_amp_factor()));
+                let (res, a) = match rr { Ok(Some(a)) => ("ok", a), Ok(None) => ("rejected", 0), Err(_) => ("aborted", 0) };
+                rec.emit(json!({"ev": "amp", "run": run, "step": step,
+                    "args": {"init": init.to_string(), "target": target.to_string(), "now": now.to_string(), "start": start.to_string(), "stop": stop.to_string()},
+                    "res": res, "out": {"amp": a.to_string()}}));
+            }
+        }
+    }
+}
+
 pub fn main(seed: u64, first: u64, runs: u64, nops: usize, out: &str, kind: &str) {
     let mut rec = Rec::create(out);
     for run in first..first + runs {
@@ -222,6 +335,8 @@ pub fn main(seed: u64, first: u64, runs: u64, nops: usize, out: &str, kind: &str
             "cp" => cp_events(&mut rec, &mut r, run, nops),
             "spread" => spread_events(&mut rec, &mut r, run, nops),
             "weight" => weight_events(&mut rec, &mut r, run, nops),
+            "st2" => { st2_swap_events(&mut rec, &mut r, run, nops * 2 / 3); st2_deposit_events(&mut rec, &mut r, run, nops / 3); }
+            "st3" => st3_events(&mut rec, &mut r, run, nops),
             _ => {
                 cp_events(&mut rec, &mut r, run, nops / 2);
                 spread_events(&mut rec, &mut r, run, nops / 2);
